@@ -314,6 +314,7 @@ package hashgraph
 //@ ghost func SPLT(h *Hashgraph, e *Event) int { return __ite(e.Body.Parents[0] == "", -1, LTV(h, e.Body.Parents[0])) }
 //@ ghost func OPLT(h *Hashgraph, e *Event) int { return __ite(__in(e.Body.Parents[1], G_events(h.Store)), LTV(h, e.Body.Parents[1]), -2147483648) }
 //@ ghost func LTRule(h *Hashgraph, e *Event) int { return 1 + __ite(e.Body.Parents[1] != "" && OPLT(h, e) > SPLT(h, e), OPLT(h, e), SPLT(h, e)) }
+//@ ghost func (h *Hashgraph) LtCachePure() bool { return h.timestampCache != nil && __allocated(h.timestampCache) && (forall x string :: __in(interface{}(x), common.G_m(h.timestampCache)) ==> common.G_m(h.timestampCache)[interface{}(x)] == interface{}(LTV(h, x))) }
 //@ ghost func (h *Hashgraph) ltCacheOK() bool { return h.timestampCache != nil && (forall x string :: __in(interface{}(x), common.G_m(h.timestampCache)) ==> __dyn(common.G_m(h.timestampCache)[interface{}(x)], "int")) && (G_miss(h.Store) || (forall x string :: __in(interface{}(x), common.G_m(h.timestampCache)) ==> common.G_m(h.timestampCache)[interface{}(x)] == interface{}(LTV(h, x)))) }
 
 // MemoOK: the six memo caches are separate objects and each is pure memoisation of its value function.
@@ -401,6 +402,7 @@ package hashgraph
 //@   ensures[peers-hash]       ret0 == nil ==> __seqeq(peers.PSHashOf(peerSet.Peers), block.Body.PeersHash)
 //@   ensures[distinct-signers] ret0 == nil ==> 3*len(counted) > len(peerSet.ByPubKey) && (forall v string :: __in(v, counted) ==> __in(v, peerSet.ByPubKey) && (exists k string :: __in(k, block.Signatures) && v == common.Enc(common.KeyBytesOf(k)) && BlockSigOK(block, common.KeyBytesOf(k), block.Signatures[k])))
 //@   ensures[wf]               peerSet.WF()
+//@   ensures[signed]           ret0 == nil ==> block.Signatures != nil
 //@   ensures[third]            ret0 == nil ==> SignedByMoreThanThird(block, peerSet)
 //@   loop 1 invariant[count]   counted != nil && __fresh(counted) && validSignatures == len(counted)
 //@   loop 1 invariant[valid]   forall v string :: __in(v, counted) ==> counted[v] && __in(v, peerSet.ByPubKey) && (exists k string :: __in(k, block.Signatures) && v == common.Enc(common.KeyBytesOf(k)) && BlockSigOK(block, common.KeyBytesOf(k), block.Signatures[k]))
@@ -418,9 +420,43 @@ package hashgraph
 // block's map that verifies over the block's body.
 //@ ghost func SignedByMoreThanThird(b *Block, ps *peers.PeerSet) bool { return exists m map[string]bool :: m != nil && 3*len(m) > len(ps.ByPubKey) && (forall v string :: __in(v, m) ==> __in(v, ps.ByPubKey) && (exists k string :: __in(k, b.Signatures) && v == common.Enc(common.KeyBytesOf(k)) && BlockSigOK(b, common.KeyBytesOf(k), b.Signatures[k]))) }
 
+// Fast-sync reset (C08, C12). FrameSound is what Reset and the insertion of frame events dereference, index and
+// sort by: every root and every (root or frame) event exists, has a core event with two parent slots, and a
+// signature that decodes (the consensus sort compares decoded signatures). The frame comes from a remote peer:
+// the caller must have established FrameSound before Reset clears the hashgraph.
+//@ ghost func FESound(e *FrameEvent) bool { return e != nil && e.Core != nil && len(e.Core.Body.Parents) == 2 && SigWF(e.Core.Signature) }
+//@ ghost func RootSound(r *Root) bool { return r != nil && (forall i int :: 0 <= i && i < len(r.Events) ==> FESound(r.Events[i])) }
+//@ ghost func FrameSound(f *Frame) bool { return (forall k string :: __in(k, f.Roots) ==> RootSound(f.Roots[k])) && (forall i int :: 0 <= i && i < len(f.Events) ==> FESound(f.Events[i])) }
+
+//@ iface func (s Store) Reset(frame *Frame) error
+//@   requires frame != nil
+//@   modifies G_events(s), G_last(s), G_lastIdx(s), G_rep(s), G_fault(s), G_miss(s), G_blocks(s), G_pset(s), G_psetOK(s), G_bodies(s), G_lastBlock(s), G_rounds(s), G_frames(s)
+
+//@ func (f *Frame) SortedFrameEvents() []*FrameEvent
+//@   safety on
+//@   requires f != nil && FrameSound(f)
+//@   modifies nothing
+//@   ensures[sound]   forall k int :: 0 <= k && k < len(ret0) ==> FESound(ret0[k])
+//@   ensures[ordered] forall i int, j int :: 0 <= i && i < j && j < len(ret0) ==> !FELess(ret0[j], ret0[i])
+//@   loop 1 invariant[sound] forall k int :: 0 <= k && k < len(sorted) ==> FESound(sorted[k])
+
+// InsertFrameEvent takes round, witness flag and Lamport timestamp from the frame (assume[frame-values]: a frame
+// accepted by the block-signature check is trusted for them) and otherwise does what InsertEvent does after its
+// checks.
+//@ func (h *Hashgraph) InsertFrameEvent(frameEvent *FrameEvent) error
+//@   safety on
+//@   requires h != nil && FESound(frameEvent) && h.MemoOK()
+//@   assume[frame-values] RoundV(h, HexOf(frameEvent.Core)) == frameEvent.Round && WitV(h, HexOf(frameEvent.Core)) == frameEvent.Witness && LTV(h, HexOf(frameEvent.Core)) == frameEvent.LamportTimestamp
+//@   ensures[memo] h.MemoOK()
+
 //@ func (h *Hashgraph) Reset(block *Block, frame *Frame) error
-//@   trusted not verified (fast-sync reset: rebuilds store, rounds and caches from the frame); its write-set is computed by the engine
-//@   requires h != nil && block != nil && frame != nil
+//@   safety on
+//@   requires h != nil && block != nil && block.Signatures != nil && frame != nil
+//@   requires[frame-sound] FrameSound(frame)
+//@   requires[lt-cache]    h.LtCachePure()
+//@   ensures[memo] h.MemoOK()
+//@   ensures[ready] ret0 == nil && old(h.PendingSignatures) != nil && old(h.PendingSignatures.items) != nil ==> h.ConsensusReady()
+//@   loop 1 invariant[memo] h.MemoOK() && (forall k int :: 0 <= k && k < len(sortedFrameEvents) ==> FESound(sortedFrameEvents[k]))
 
 // Snapshot: the part of a hashgraph (and of its store's ghost view) that a refused fast-forward must leave alone.
 //@ ghost type HGSnapshot struct { Store Store; Undetermined []string; PendingRounds *PendingRoundsCache; PendingSignatures *SigPool; Anchor *int; LastConsensusRound *int; FirstConsensusRound *int; LowerBound *int; Topo int; Loaded int; Events gmap[string, *Event]; Last gmap[string, string]; LastIdx gmap[string, int] }
